@@ -459,7 +459,8 @@ Proof.
     + change (firstn (S j) (y :: zinsert x s)) with (y :: firstn j (zinsert x s)).
       change (zsum (y :: firstn j (zinsert x s))) with (y + zsum (firstn j (zinsert x s))).
       destruct j as [|j]; [simpl; lia|].
-      specialize (IH x j). cbn [firstn]. change (zsum (y :: firstn j s)) with (y + zsum (firstn j s)). lia.
+      specialize (IH x j). change (firstn (S j) (y :: s)) with (y :: firstn j s).
+      change (zsum (y :: firstn j s)) with (y + zsum (firstn j s)). lia.
 Qed.
 
 Lemma firstn_S_nonneg : forall s j, Forall (fun x => 0 <= x) s -> zsum (firstn j s) <= zsum (firstn (S j) s).
@@ -499,5 +500,7 @@ Lemma ss_nonneg : forall l j, Forall (fun x => 0 <= x) l -> 0 <= sum_smallest j 
 Proof.
   intros l j H. unfold sum_smallest. apply zsum_nonneg.
   pose proof (zsort_nonneg l H) as H'. rewrite Forall_forall in *. intros x Hx. apply H'.
-  apply (In_firstn_aux x j (zsort l) Hx).
+  revert Hx. generalize (zsort l). clear. intros s. revert j.
+  induction s as [|y s IH]; intros [|j] Hx; simpl in Hx; try contradiction.
+  destruct Hx as [<-|Hx]; [left; reflexivity|right; apply (IH j Hx)].
 Qed.
